@@ -82,6 +82,7 @@ def command(draw):
         c['clean'] = c['mode'] != '-f' and draw(st.integers(0, 2)) == 0
     elif kind == 'json':
         c['out'] = draw(st.sampled_from(['same', 'inside', 'outside', 'none', 'missing']))
+        c['clean'] = draw(st.integers(0, 2)) == 0
         c['sel'] = draw(D.selection())
         c['ext'] = draw(st.sampled_from([None, None, '.pel']))
     elif kind == 'delete':
@@ -156,6 +157,8 @@ def tree_snapshots(case, note):
                 argv += ['-o', outdir]
             if c['ext']:
                 argv += ['-e', c['ext']]
+            if c.get('clean'):
+                argv.append('-c')
             argv += D.selection_argv(c['sel'])
         elif kind == 'delete':
             argv += ['-d', spell(t['target'], c['spell'])]
@@ -192,7 +195,18 @@ def tree_snapshots(case, note):
                                 'in the directory are %r' % (what, gone, created, modified, top_files),
                                 sig='C11.delete-all')
         else:
-            if removed or modified:
+            if c.get('clean'):
+                # with --clean an original may go, but only one whose JSON file was written in this run
+                converted = set()
+                for k in created:
+                    base = os.path.basename(k)
+                    if base.endswith('.json') and base.count('.') >= 2:
+                        converted.add(base.rsplit('.', 2)[0])
+                bad = [k for k in removed if rel(k) not in converted or '/' in rel(k)]
+                if bad or modified:
+                    raise Violation('C11.json', '%s removed %r although no JSON file was written for them (written: '
+                                    '%r); modified %r' % (what, bad, created, modified), sig='C11.json:clean-removes')
+            elif removed or modified:
                 raise Violation('C11.json', '%s removed %r / modified %r' % (what, removed, modified),
                                 sig='C11.json:destructive')
             outdir_eff = {'same': d, 'inside': os.path.join(d, 'emptydir') if 'emptydir' in files else d,
